@@ -337,13 +337,25 @@ class Run:
             return self.result(0)
         changes = 0
         for k, op in enumerate(plan["ops"]):
+            try:
+                obj, changes = self.step(k, op, obj, m, layout, changes)
+            except R.SPSDKError as exc:
+                # an SPSDK error escaping from a place where none is expected (a getter, export, a query helper ...)
+                self.violation("unexpected-error", f"{op['op']}:{type(exc).__name__}", f"step {k} {op['op']}: {type(exc).__name__}: {exc}")
+                obj = self.rebuild(layout, m)
+            if len(self.records) > 12:
+                break
+        return self.result(changes)
+
+    def step(self, k, op, obj, m, layout, changes):  # noqa: C901 pylint: disable=too-many-branches,too-many-statements,too-many-locals
+        if True:
             name = op["op"]
             before = len(self.records)
             label = f"step {k} {name}"
             if name == "reg_set":
                 r = layout["regs"][op["reg"] % len(layout["regs"])]
                 if (m.group_of.get(r["uid"]) or {}).get("alt_widths"):
-                    continue
+                    return obj, changes
                 pv, iv = value_of(op["val"], r["width"])
                 fits = 0 <= iv < (1 << r["width"])
                 raw = bool(op.get("raw"))
@@ -357,10 +369,10 @@ class Run:
                     self.resync(obj, m)
             elif name == "group_set":
                 if not layout.get("groups"):
-                    continue
+                    return obj, changes
                 g = layout["groups"][op["group"] % len(layout["groups"])]
                 if g.get("alt_widths"):
-                    continue
+                    return obj, changes
                 w = m.group_width(g)
                 pv, iv = value_of(op["val"], w)
                 fits = 0 <= iv < (1 << w)
@@ -376,7 +388,7 @@ class Run:
             elif name == "alt_set":
                 cands = [g for g in layout.get("groups", []) if g.get("alt_widths")]
                 if not cands:
-                    continue
+                    return obj, changes
                 g = cands[op["group"] % len(cands)]
                 total = m.group_width(g)
                 w = m.leaf[g["sub_regs"][0]]["width"]
@@ -437,7 +449,7 @@ class Run:
             elif name in ("bf_set", "bf_enum"):
                 cands = [r for r in layout["regs"] if r.get("bitfields")]
                 if not cands:
-                    continue
+                    return obj, changes
                 r = cands[op["reg"] % len(cands)]
                 bi = op["bf"] % len(r["bitfields"])
                 b = r["bitfields"][bi]
@@ -531,9 +543,7 @@ class Run:
             if len(self.records) > before:
                 # resynchronise so that one divergence is reported once, and later steps are still judged
                 obj = self.rebuild(layout, m)
-            if len(self.records) > 12:
-                break
-        return self.result(changes)
+        return obj, changes
 
     def resync(self, obj, m: Model) -> None:
         """After a wrongly accepted write, adopt the object's state so that later steps are judged on their own."""
